@@ -674,7 +674,6 @@ def rule_W5(ctx):
     ctx.begin("W5", floor=5, what="overwrite guards and their callers")
     prog = ctx.prog
     f = prog.func("lbuf_save")
-    cfg = f.cfg
     pn = [p["name"] for p in f.params]
     if len(pn) != 6:
         raise AnalysisBroken("lbuf_save no longer takes (lb, beg, end, path, force, ts)")
@@ -682,22 +681,36 @@ def rule_W5(ctx):
     opens = [o for o in f.calls("open")]
     if not opens:
         raise AnalysisBroken("lbuf_save: no open()")
-    # leaf guards
+
+    def mtime_conds(g, gpath):
+        out_ = []
+        for b_ in g.cfg.blocks.values():
+            br = g.cfg.branch(b_.id)
+            if not br:
+                continue
+            c = g.nodes.get(br[0])
+            if c is None:
+                continue
+            mt = [x for x in calls_in(c, "mtime") if key(strip_casts(x["args"][0])) == gpath]
+            if mt:
+                out_.append((b_, c, mt[0]))
+        return out_
+    # the guards live in lbuf_save or in a helper of the file that it calls with (path, ts) and
+    # whose non-NULL result makes it return before the open()
+    owner, opath, ots, hcall = f, path, ts, None
+    if not mtime_conds(f, path):
+        for c_ in f.calls():
+            h = prog.resolve(f, c_["fn"]) if c_.get("fn") else None
+            if h is None or h.file != f.file or h is f:
+                continue
+            amap = {key(strip_casts(a_)): q["name"] for q, a_ in zip(h.params, c_["args"])}
+            if path in amap and ts in amap and mtime_conds(h, amap[path]):
+                owner, opath, ots, hcall = h, amap[path], amap[ts], c_
+    g = owner
+    cfg = g.cfg
     changed, exists = [], []
-    for b in cfg.blocks.values():
-        br = cfg.branch(b.id)
-        if not br:
-            continue
-        c = f.nodes.get(br[0])
-        if c is None:
-            continue
-        mt = [x for x in calls_in(c, "mtime") if key(strip_casts(x["args"][0])) == path]
-        if not mt:
-            continue
-        if mentions(c, ts):
-            changed.append((b, c, mt[0]))
-        else:
-            exists.append((b, c, mt[0]))
+    for b_, c, m in mtime_conds(g, opath):
+        (changed if mentions(c, ots) else exists).append((b_, c, m))
     if not changed:
         ctx.violation("lbuf_save", "changed-on-disk guard", "no comparison of mtime(path) with "
                       "the caller's timestamp guards the write")
@@ -709,7 +722,7 @@ def rule_W5(ctx):
         def ev(e):
             if e["id"] == mcall["id"]:
                 return mval
-            if e["k"] == "ref" and e["name"] == ts:
+            if e["k"] == "ref" and e["name"] == ots:
                 return tsval
             if e["k"] == "int":
                 return e["v"]
@@ -724,66 +737,118 @@ def rule_W5(ctx):
                 v = ev(e["e"])
                 return None if v is None else -v
             if e["k"] == "bin" and e["op"] in ("<", "<=", ">", ">=", "==", "!="):
-                a, b = ev(e["l"]), ev(e["r"])
-                if a is None or b is None:
+                a_, b2 = ev(e["l"]), ev(e["r"])
+                if a_ is None or b2 is None:
                     return None
-                return int({"<": a < b, "<=": a <= b, ">": a > b, ">=": a >= b,
-                            "==": a == b, "!=": a != b}[e["op"]])
+                return int({"<": a_ < b2, "<=": a_ <= b2, ">": a_ > b2, ">=": a_ >= b2,
+                            "==": a_ == b2, "!=": a_ != b2}[e["op"]])
             return None
         return ev(c)
 
-    for b, c, m in changed:
-        # newer -> refuse; older or equal -> not this guard's business
+    # what must not be reached once a guard fired: the open() itself, or -- in a helper -- a
+    # return that tells the caller to go ahead (NULL / 0)
+    def passes(e):
+        if e == ("exit",):
+            return False
+        n_ = g.nodes.get(e)
+        if g is f:
+            return is_call(n_, "open")
+        if n_ is not None and n_["k"] == "return":
+            rv = n_.get("e")
+            return rv is None or cval(strip_casts(rv)) == 0 or key(strip_casts(rv)) in ("(void *)0", "0")
+        return False
+
+    for b_, c, m in changed:
         vals = [ev2(c, m, 10, 5), ev2(c, m, 5, 10), ev2(c, m, 5, 5)]
         if vals[0] == 1 and vals[1] == 0:
-            # true edge must not reach open
-            hit = cfg.search(b.succ[0], lambda e: e != ("exit",) and is_call(f.nodes.get(e), "open"),
-                             start_block=True)
+            hit = cfg.search(b_.succ[0], passes, start_block=True)
             if hit is None:
-                ctx.ok("lbuf_save", "newer file on disk refuses the write", loc=f.loc(c))
+                ctx.ok("lbuf_save", "newer file on disk refuses the write", loc=g.loc(c))
             else:
                 ctx.violation("lbuf_save", "changed-on-disk guard",
-                              "open() is reachable although %s holds" % key(c), f.loc(c))
+                              "the write goes ahead although %s holds" % key(c), g.loc(c))
         else:
             ctx.violation("lbuf_save", "changed-on-disk guard",
-                          "%s is not `file time newer than the recorded one`" % key(c), f.loc(c))
-    for b, c, m in exists:
+                          "%s is not `file time newer than the recorded one`" % key(c), g.loc(c))
+    for b_, c, m in exists:
         vals = [ev2(c, m, -1, 0), ev2(c, m, 0, 0), ev2(c, m, 100, 0)]
         if vals == [0, 1, 1]:
-            hit = cfg.search(b.succ[0], lambda e: e != ("exit",) and is_call(f.nodes.get(e), "open"),
-                             start_block=True)
+            hit = cfg.search(b_.succ[0], passes, start_block=True)
             if hit is None:
-                ctx.ok("lbuf_save", "existing foreign file refuses the write", loc=f.loc(c))
+                ctx.ok("lbuf_save", "existing foreign file refuses the write", loc=g.loc(c))
             else:
                 ctx.violation("lbuf_save", "exists-but-foreign guard",
-                              "open() is reachable although %s holds" % key(c), f.loc(c))
+                              "the write goes ahead although %s holds" % key(c), g.loc(c))
         else:
             ctx.violation("lbuf_save", "exists-but-foreign guard",
-                          "%s is not `the file exists`" % key(c), f.loc(c))
-    # bypass analysis: every path entry -> open
+                          "%s is not `the file exists`" % key(c), g.loc(c))
+
+    def infeasible(gg, items):
+        for x in items:
+            if x[0] == "br":
+                c = gg.nodes[x[1]]
+                if c["k"] == "bin" and c["op"] in (">", "!=") and c["l"]["k"] == "ref" \
+                        and c["l"]["cat"] == "func" and cval(c["r"]) == 0 and not x[2]:
+                    return True
+        return False
+
+    def guards_passed(facts):
+        """None when both guards are known to have let the write through, else the reason"""
+        for b_, c, m in changed:
+            st = [t for cc, t in facts if cc["id"] == c["id"]]
+            if not st or st[-1] is not False:
+                return ("changed-on-disk guard bypass", "does not pass `%s` as false" % key(c))
+        for b_, c, m in exists:
+            st = [t for cc, t in facts if cc["id"] == c["id"]]
+            if st and st[-1] is False:
+                continue
+            skipped_ok = False
+            for cc, t in facts:
+                names = {r["name"] for r in refs(cc)}
+                if names == {ots}:
+                    v0 = ev2(cc, {"id": -1}, 0, 0)
+                    vm = ev2(cc, {"id": -1}, 0, -1)
+                    vp = ev2(cc, {"id": -1}, 0, 7)
+                    if v0 is not None and bool(v0) != t and bool(vm) != t and bool(vp) == t:
+                        skipped_ok = True
+            if not skipped_ok:
+                return ("exists-but-foreign guard bypass", "skips `%s` without knowing the timestamp is positive" % key(c))
+        return None
+
+    # (1) inside a helper: it says `go ahead` only on paths where both guards let the write through
+    if g is not f:
+        n_pass = 0
+        for r in g.cfg.return_nodes():
+            if not passes(r["id"]):
+                continue
+            pr = g.cfg.pos(r)
+            for items, end in enum_paths(g.cfg, g.cfg.entry, {pr[0]}):
+                if end != pr[0] or infeasible(g, items):
+                    continue
+                n_pass += 1
+                why = guards_passed([(g.nodes[x[1]], x[2]) for x in items if x[0] == "br"])
+                if why:
+                    ctx.violation("lbuf_save", why[0], "a path through %s that lets the write go ahead %s" % (g.name, why[1]), g.loc(r))
+                    break
+        if not n_pass:
+            raise AnalysisBroken("%s never lets a write go ahead" % g.name)
+    # (2) every path entry -> open in lbuf_save: force, or the guards (the helper's go-ahead)
     for o in opens:
-        pos = cfg.pos(o)
+        pos = f.cfg.pos(o)
         try:
-            paths = enum_paths(cfg, cfg.entry, {pos[0]})
+            paths = enum_paths(f.cfg, f.cfg.entry, {pos[0]})
         except OverflowError:
             raise AnalysisBroken("lbuf_save: too many paths")
-        paths = [p for p in paths if p[1] == pos[0]]
-        # drop infeasible paths: a function's address compared with 0 is always true
-        def infeasible(items):
-            for x in items:
-                if x[0] == "br":
-                    c = f.nodes[x[1]]
-                    if c["k"] == "bin" and c["op"] in (">", "!=") and c["l"]["k"] == "ref" \
-                            and c["l"]["cat"] == "func" and cval(c["r"]) == 0 and not x[2]:
-                        return True
-            return False
-        paths = [p for p in paths if not infeasible(p[0])]
+        paths = [p for p in paths if p[1] == pos[0] and not infeasible(f, p[0])]
         if not paths:
             raise AnalysisBroken("lbuf_save: open() unreachable")
+        resvars = set()
+        if hcall is not None:
+            resvars = {lv["name"] for n_, lv, op, rhs in stores(f.body) if rhs is not None and lv["k"] in ("ref", "var") and
+                       any(x["id"] == hcall["id"] for x in walk(rhs))}
         for items, _ in paths:
             facts = [(f.nodes[x[1]], x[2]) for x in items if x[0] == "br"]
             forced = False
-            ts_known = None   # True when a ts-only conjunct says ts > 0
             for c, t in facts:
                 c2, t2 = negate_truth(c, t)
                 if c2["k"] == "ref" and c2["name"] == force and t2:
@@ -793,38 +858,20 @@ def rule_W5(ctx):
                     forced = True
             if forced:
                 continue
-            for b, c, m in changed:
-                st = [t for cc, t in facts if cc["id"] == c["id"]]
-                if not st or st[-1] is not False:
-                    ctx.violation("lbuf_save", "changed-on-disk guard bypass",
-                                  "a path to open() with force == 0 does not pass `%s` as "
-                                  "false" % key(c), f.loc(o))
-                    break
+            if g is f:
+                why = guards_passed(facts)
             else:
-                for b, c, m in exists:
-                    st = [t for cc, t in facts if cc["id"] == c["id"]]
-                    if st and st[-1] is False:
-                        continue
-                    # skipped: only through a conjunct over ts alone that is false and that
-                    # means `the caller knows this file` (ts > 0)
-                    skipped_ok = False
-                    for cc, t in facts:
-                        names = {r["name"] for r in refs(cc)}
-                        if names == {ts}:
-                            # truth t of cc; evaluate: must be inconsistent with ts in {0,-1}
-                            v0 = ev2(cc, {"id": -1}, 0, 0)
-                            vm = ev2(cc, {"id": -1}, 0, -1)
-                            vp = ev2(cc, {"id": -1}, 0, 7)
-                            if v0 is not None and bool(v0) != t and bool(vm) != t and bool(vp) == t:
-                                skipped_ok = True
-                    if not skipped_ok:
-                        ctx.violation("lbuf_save", "exists-but-foreign guard bypass",
-                                      "a path to open() with force == 0 skips `%s` without "
-                                      "knowing the timestamp is positive" % key(c), f.loc(o))
-                        break
-                else:
-                    continue
-                continue
+                from ..util import nullness
+                went = False
+                for c, t in facts:
+                    nn = nullness(c, t)
+                    if nn and nn[1] and (key(strip_casts(nn[0])) in resvars or
+                                         any(x["id"] == hcall["id"] for x in walk(nn[0]))):
+                        went = True
+                why = None if went else ("overwrite guards bypass", "does not pass %s() with a go-ahead result" % g.name)
+            if why:
+                ctx.violation("lbuf_save", why[0], "a path to open() with force == 0 %s" % why[1], f.loc(o))
+                break
         else:
             ctx.ok("lbuf_save", "open() only behind both guards or force (%d paths)" % len(paths),
                    loc=f.loc(o))
@@ -962,16 +1009,26 @@ def rule_W6(ctx):
             continue
         _, bid, k, cond = r
         succ_edges.add((cond["id"], k == 1))   # (cond node, truth on the success edge)
-    effects = []
-    for n in f.walk():
-        if is_call(n, "lbuf_saved"):
-            effects.append(("saved", n))
-        elif n["k"] == "bin" and n["op"] == "=":
-            lf = lv_field(n["l"])
-            if lf and lf[0] == "buf" and lf[1] == "mtime":
-                effects.append(("mtime", n))
-            elif lf and lf[0] == "buf" and lf[1] == "path" and not lf[2]:
-                effects.append(("path", n))
+    def effects_in(g):
+        out_ = []
+        for n in g.walk():
+            if is_call(n, "lbuf_saved"):
+                out_.append(("saved", n))
+            elif n["k"] == "bin" and n["op"] == "=":
+                lf = lv_field(n["l"])
+                if lf and lf[0] == "buf" and lf[1] == "mtime":
+                    out_.append(("mtime", n))
+                elif lf and lf[0] == "buf" and lf[1] == "path" and not lf[2]:
+                    out_.append(("path", n))
+        return out_
+    effects = [(k_, n_, f, None) for k_, n_ in effects_in(f)]
+    # the bookkeeping may live in a helper of the file that ec_write calls after the save: its
+    # effects are judged on the paths through ec_write to the call followed by the helper's own
+    for c_ in f.calls():
+        h = prog.resolve(f, c_["fn"]) if c_.get("fn") else None
+        if h is not None and h.file == f.file and h is not f and h.static and \
+                not any(True for _ in h.calls("lbuf_save")):
+            effects += [(k_, n_, h, c_) for k_, n_ in effects_in(h)]
     if len(effects) < 3:
         raise AnalysisBroken("ec_write: saved-state effects not found (%d)" % len(effects))
 
@@ -1001,18 +1058,25 @@ def rule_W6(ctx):
             return True
         return False
 
-    for kind, n in effects:
-        p = cfg.pos(n)
+    def fact_lists(g, target):
+        p_ = g.cfg.pos(target)
         try:
-            paths = enum_paths(cfg, cfg.entry, {p[0]})
+            ps_ = enum_paths(g.cfg, g.cfg.entry, {p_[0]})
         except OverflowError:
-            raise AnalysisBroken("ec_write: too many paths")
-        paths = [it for it, end in paths if end == p[0] and path_consistent(f, it)]
+            raise AnalysisBroken("%s: too many paths" % g.name)
+        return [[(g.nodes[x[1]], x[2]) for x in it if x[0] == "br"]
+                for it, end in ps_ if end == p_[0] and path_consistent(g, it)]
+
+    for kind, n, owner, site in effects:
+        if owner is f:
+            paths = fact_lists(f, n)
+        else:
+            paths = [a_ + b_ for a_ in fact_lists(f, site) for b_ in fact_lists(owner, n)]
         if not paths:
             raise AnalysisBroken("ec_write: effect unreachable")
         bad_save = bad_same = bad_unnamed = bad_whole = None
-        for items in paths:
-            facts = [(f.nodes[x[1]], x[2]) for x in items if x[0] == "br"]
+        for facts in paths:
+            items = facts
             if not any((c["id"], t) in succ_edges for c, t in facts):
                 bad_save = items
             if kind in ("saved", "mtime") and not any(same_path_fact(c, t) for c, t in facts):
@@ -1029,7 +1093,7 @@ def rule_W6(ctx):
                 bad_whole = items
 
         def show(items):
-            return ", ".join("%s=%s" % (key(f.nodes[x[1]])[:40], x[2]) for x in items if x[0] == "br")
+            return ", ".join("%s=%s" % (key(c_)[:40], t_) for c_, t_ in items)
         ok = True
         if bad_save:
             ok = False
@@ -1281,5 +1345,44 @@ def rule_W7(ctx):
         ctx.broken("only %d callers of lbuf_rd" % n)
 
 
-RULES = {"W1": rule_W1, "W2": rule_W2, "W3": rule_W3, "W4": rule_W4, "W5": rule_W5,
+def rule_W10(ctx):
+    """An error test must be able to fail: `x < 0` (or `x >= 0`, `x <= -1`) on a value of an
+    unsigned type is decided at compile time, so a failed write / read / open it was meant to
+    catch goes unnoticed.  Every such comparison in the program is examined; the instances
+    counted are the sign tests on results of calls in lbuf.c and ex.c."""
+    ctx.begin("W10", floor=6, what="sign tests on I/O results are made on signed values")
+    prog = ctx.prog
+
+    def unsigned(e):
+        t = str(e.get("ty", ""))
+        return t.startswith("unsigned") or t in ("size_t", "uint", "ulong")
+
+    for f in prog.funcs.values():
+        for n in f.walk():
+            if n["k"] != "bin" or n["op"] not in ("<", "<=", ">", ">="):
+                continue
+            l, r = n["l"], n["r"]
+            op = n["op"]
+            if cval(l) is not None and cval(r) is None:
+                l, r = r, l
+                op = {"<": ">", "<=": ">=", ">": "<", ">=": "<="}[op]
+            k_ = cval(r)
+            if k_ is None or not ((op in ("<", ">=") and k_ == 0) or (op in ("<=", ">") and k_ == -1)):
+                continue
+            x = l
+            while x["k"] in ("paren",):
+                x = x["e"]
+            inner = strip_casts(x)
+            is_res = any(True for _ in calls_in(x)) or (inner["k"] == "ref" and any(
+                rhs is not None and any(True for _ in calls_in(rhs)) and lv["k"] in ("ref", "var") and lv.get("name") == inner["name"]
+                for _n, lv, _o, rhs in stores(f.body)))
+            if unsigned(x) or (x["k"] == "cast" and unsigned(x)):
+                ctx.violation(f.name, "sign test on a signed value",
+                              "%s compares a value of type %s with %d: the test is decided at compile time, an "
+                              "error return (-1) is never seen" % (key(n), x.get("ty"), k_), f.loc(n))
+            elif is_res and f.file in ("lbuf.c", "ex.c"):
+                ctx.ok(f.name, "%s is a test on a signed value" % key(n), loc=f.loc(n))
+
+
+RULES = {"W10": rule_W10, "W1": rule_W1, "W2": rule_W2, "W3": rule_W3, "W4": rule_W4, "W5": rule_W5,
          "W6": rule_W6, "W7": rule_W7}
